@@ -10,6 +10,9 @@ def run(ctx):
     sd = ctx.spec_dir("tsmengine")
     if ctx.replay:
         rp = json.load(open(ctx.replay))["replay"]
+        if "scenario" in rp:
+            te.scenarios(ctx)
+            return ctx.finish("model_checking", {"scenarios": 1})
         done = te.replay_and_judge(ctx, [rp["behaviour"]], "replay")
         return ctx.finish("model_checking", {"replayed_behaviours": done.get("behaviours", 0)})
 
@@ -22,17 +25,29 @@ def run(ctx):
         lambda: te.mc(ctx, sd, "MCcrash", te.mc_consts(w=3, snap=1, crash=2, times=(0, 1, 2) if big else (0, 1)), te.INV_C01, workers=w),
         lambda: te.mc(ctx, sd, "MCcompact", te.mc_consts(w=3 if big else 2, snap=2, comp=1, crash=1), te.INV_C01, workers=w),
         lambda: te.mc(ctx, sd, "MCdelcrash", te.mc_consts(keys=("a1", "a2", "b1") if big else ("a1", "b1"), w=2, snap=1, dele=1, crash=1), te.INV_C01, workers=w),
+        # several closed WAL segments per snapshot (rollover), removed one by one after the snapshot file is live
+        lambda: te.mc(ctx, sd, "MCroll", te.mc_consts(keys=("a1",), w=3, snap=1, crash=1, roll=2 if big else 1, dele=1 if big else 0), te.INV_C01, workers=w),
+        lambda: te.negative_control(ctx, sd, "NCroll", te.mc_consts(keys=("a1",), w=3, snap=1, crash=1, roll=1, dev=("walNewestFirst",)), "C01_Durable"),
         lambda: te.negative_control(ctx, sd, "NCf1", te.mc_consts(w=3, snap=1, crash=2, dev=("F1",)), "C01_Durable"),
-    ], max_workers=2 if big else 4)
+    ], max_workers=3 if big else 6)
 
     # 2. behaviours -> real store, crash images at every durable step, behaviour continued on the image
     n = ctx.pick(1, 5)
     fixed = te.known_behaviours(ctx)
+    perseg = ["perseg"] if te.has_remove_hook(ctx) else []
+    if not perseg:
+        log("  note: patches/C01/05-hook (wal.remove.file) is not applied: no crash point between WAL segment removals")
     have_f1 = sum(1 for b in fixed if te.has_f1_history(b))
+    have_roll = sum(1 for b in fixed if te.multi_segment_overwrites(b) >= 1)
     gens = te.run_parallel([
         lambda: te.generate_with(ctx, sd, "GenCrash", te.gen_consts(["write", "snapshot", "reopen", "crash"], crash=4, comp=0, dele=0), 10 * n,
                                  te.has_f1_history, 3, "the history torn tail -> restart -> acknowledged write", have=have_f1)[0],
         lambda: te.generate(ctx, sd, "GenCompact", te.gen_consts(["write", "snapshot", "gate", "compact", "crash"], crash=2, dele=0, w=5, snap=4, crash_in=("compact", "snapshot", "restart")), num=10 * n),
+        # rollovers: a point overwritten / deleted across WAL segments, then snapshots and crashes inside them
+        lambda: te.generate_with(ctx, sd, "GenRoll", te.gen_consts(["write", "walroll", "snapshot", "fullsnap", "multiseg", "crash"] + perseg, w=5, batch=1, snap=2, dele=0, comp=0, crash=1,
+                                                                    roll=3, genlen=8, crash_in=("snapshot",), keys=("a1", "a2"), times=(0, 1)), 20 * n,
+                                 lambda b: te.multi_segment_overwrites(b) >= 1, 5, "a snapshot over >= 2 WAL segments with a point overwritten across them",
+                                 variants=4, have=have_roll)[1][:12 * n],
         lambda: te.generate(ctx, sd, "GenDelete", te.gen_consts(["write", "snapshot", "compact", "delete", "reopen", "crash"], crash=3, crash_in=("delete", "compact", "idle", "restart")), num=6 * n),
     ])
     behs = fixed + [b for g in gens for b in g]
@@ -41,10 +56,11 @@ def run(ctx):
     if f1 == 0:
         raise Infra("no generated behaviour contains the history torn tail -> restart -> acknowledged write -> restart")
     done = te.replay_and_judge(ctx, behs, "replay")
+    sc = te.scenarios(ctx)
     extra = {"replayed_behaviours": done.get("behaviours", 0), "replayed_steps": done.get("steps", 0),
              "crash_images": done.get("crash_images", 0), "crash_images_recovered": done.get("crash_images_recovered", 0),
              "tainted_model_drift": done.get("tainted_model_drift", 0),
-             "torn_tail_second_restart_histories": f1, "step_kinds": acts}
+             "torn_tail_second_restart_histories": f1, "scenarios": sc.get("scenarios", 0), "step_kinds": acts}
     return ctx.finish("model_checking", extra, assumptions=[
         "crash model: process death at a durable step (verif hooks + FileStoreObserver) plus any truncation of the WAL entry that was being synced; "
         "a crash image is a copy of the store directory (page-cache state), so loss of written-but-unsynced data other than the WAL tail is not modelled",
